@@ -8,8 +8,11 @@ records (4 x float32), rows south->north, columns from E_LONG towards W_LONG
 import struct
 
 
+PAD = [b' ']
+
+
 def _name(s):
-    return s.encode('ascii').ljust(8)[:8]
+    return s.encode('ascii').ljust(8, PAD[0])[:8]
 
 
 def _rec_int(name, v):
@@ -55,6 +58,7 @@ def build(spec, node_value):
     """spec: {'header': {...optional...}, 'subgrids': [ {name,parent,s_lat,e_long,lat_inc,long_inc,nrow,ncol,...} ]}
     node_value(k, r, c) -> 4 floats (exactly representable in float32).
     Returns (bytes, layout) with layout[k] = byte offset of node (0,0) of sub-grid k."""
+    PAD[0] = b'\0' if spec.get('nul_padding') else b' '     # 8-character fields padded with blanks or NULs
     out = [overview_header(len(spec['subgrids']), **spec.get('header', {}))]
     pos = 176
     layout = []
